@@ -1,0 +1,12 @@
+//go:build verif
+
+package uci
+
+import . "github.com/paulsonkoly/chess-3/chess"
+
+// VerifLimits evaluates the time control arithmetic of handleGo for the given
+// clock state (build tag verif).
+func VerifLimits(wtime, btime, winc, binc, mtime int64, stm Color) (timed bool, soft, hard int64) {
+	tc := timeControl{wtime: wtime, btime: btime, winc: winc, binc: binc, mtime: mtime}
+	return tc.timedMode(stm), tc.softLimit(stm), tc.hardLimit(stm)
+}
